@@ -226,3 +226,14 @@ Definition read (rsv : gset string) (bbs : list bbdef) (m : vmodule) : res Circu
   let st0 := {| r_g := g0; r_bbs := ∅; r_ge := ∅; r_io := list_to_set (m_ports m); r_ins := ∅; r_outs := ∅ |} in
   st ← rfold (c_item k) st0 (m_items m);
   finish k (m_name m) st.
+
+(* io.verilog_to_circuit, specification level: the text is a sequence of modules; the module called `name` is read
+   (leftmost one), else - when the name was inferred from a file name - the first module, else ValueError.
+   (The implementation cuts the text with the regex module\s+<name>\s*\(.*?\);(.*?)endmodule; the character level is not modelled.) *)
+Definition select_module (name : string) (infer : bool) (mods : list vmodule) : res vmodule :=
+  match list_find (λ m, m_name m = name) mods with
+  | Some (_, m) => Ok m
+  | None => if infer then match mods with m :: _ => Ok m | [] => Raise ValueError end else Raise ValueError
+  end.
+Definition read_text (name : string) (infer : bool) (rsv : gset string) (bbs : list bbdef) (mods : list vmodule) : res Circuit :=
+  m ← select_module name infer mods; read rsv bbs m.
